@@ -5,7 +5,7 @@ from htmltools import HTML, Tag, consolidate_attrs
 from htmltools._core import TagAttrDict
 from htmltools._jsx import JSXTagAttrDict
 
-from engine.api import harness, pick
+from engine.api import conc, concrete, harness, pick
 from oracles.attrs import attrs_as_list, ref_attr_name, ref_merge
 
 
@@ -87,6 +87,8 @@ def _pre_merge(B, n0, n1, n2, n3, k0, k1, k2, k3):
             return False
     if not B["FOUR"] and not (n1 == 0 and k1 == 0):
         return False
+    if B["FOUR"] and not (n1 in (0, 1, 3) and k1 in (0, 1, 3, 4, 5)):
+        return False        # second entry of the first dict: three names, five kinds (keeps a shard near 25 000 paths)
     return True
 
 
@@ -98,6 +100,10 @@ def _pre_merge(B, n0, n1, n2, n3, k0, k1, k2, k3):
          targets=["htmltools._core.TagAttrDict.update", "htmltools._core.Tag.__init__"],
          timeout={"quick": 150, "thorough": 1500})
 def h_merge(n0: int, n1: int, n2: int, n3: int, k0: int, k1: int, k2: int, k3: int) -> bool:
+    return concrete(_merge_body, conc(n0, 0, 4), conc(n1, 0, 4), conc(n2, 0, 4), conc(n3, 0, 4), conc(k0, 0, 6), conc(k1, 0, 6), conc(k2, 0, 6), conc(k3, 0, 6))
+
+
+def _merge_body(n0: int, n1: int, n2: int, n3: int, k0: int, k1: int, k2: int, k3: int) -> bool:
     s = "&v\""
     d1 = {pick(n0, _NAMES): _val(k0, s, 0)}
     if not (n1 == 0 and k1 == 0):
@@ -115,6 +121,10 @@ def h_merge(n0: int, n1: int, n2: int, n3: int, k0: int, k1: int, k2: int, k3: i
          sel=["n0, n3: raw names of a dict entry and a keyword", "k0, k3: value kinds"],
          targets=["htmltools._core.consolidate_attrs"])
 def h_consolidate(n0: int, n3: int, k0: int, k3: int) -> bool:
+    return concrete(_consolidate_body, conc(n0, 0, 4), conc(n3, 0, 4), conc(k0, 0, 5), conc(k3, 0, 5))
+
+
+def _consolidate_body(n0: int, n3: int, k0: int, k3: int) -> bool:
     import collections
     from htmltools._core import TagAttrDict as _TAD
     """consolidate_attrs returns exactly the merged attributes plus the non-dict arguments unchanged, so
@@ -149,6 +159,10 @@ def _pre_upd(B, op, n0, n1, nu, k0, k1, ku):
          targets=["htmltools._core.TagAttrDict.update", "htmltools._core.TagAttrDict.__setitem__"],
          timeout={"quick": 150, "thorough": 900})
 def h_update_replace(op: int, n0: int, n1: int, nu: int, k0: int, k1: int, ku: int) -> bool:
+    return concrete(_update_body, conc(op, 0, 2), conc(n0, 0, 4), conc(n1, 0, 4), conc(nu, 0, 4), conc(k0, 0, 5), conc(k1, 0, 5), conc(ku, 0, 5))
+
+
+def _update_body(op: int, n0: int, n1: int, nu: int, k0: int, k1: int, ku: int) -> bool:
     """Inductive step: from an arbitrary attribute map, a later update / item assignment replaces (keeps
     the position of an existing name, appends a new one) and never joins with the stored value."""
     s = "<v'"
